@@ -22,7 +22,7 @@ var components = map[string]string{
 }
 
 var flowAssumptions = []string{
-	"goroutines are released one at a time at seam calls and inserted yield points; code between two yield points is one atomic step (mutex critical sections, straight-line code without channel operations)",
+	"goroutines are released one at a time at seam calls and inserted yield points (before channel operations, mutex locks and sync/atomic calls); code between two yield points is one atomic step (mutex critical sections, straight-line code without such operations)",
 	"GOMAXPROCS(1) and asyncpreemptoff: the order in which goroutines woken by the released goroutine run is the Go scheduler's deterministic run-queue order",
 	"the reference broker and codec are correct with respect to MQTT 3.1.1",
 	"a clean batch is evidence over the sampled schedules and fault sequences, not proof",
@@ -83,15 +83,15 @@ var props = map[string]propMeta{
 	"C09": {
 		Level: "exploration",
 		Rule: "input sampling, said plainly: no schedule decides this property, and the one fault dimension it has is a transport that accepts packets in pieces (30 % of the runs: a prefix, then the write deadline; the client has to continue where it stopped). Each run draws a Config (user name without/with password, password only, empty password, will with empty/non-empty message, retain and both QoS flags, keep-alive 0/1/60/65535, clean session) and a client identifier, connects against the reference broker and issues 2-7 requests with boundary-biased arguments (string lengths 1, 127, 128, 65534, 65535; the first and last code point of every UTF-8 length, U+FFFD itself, non-characters and control characters; payloads across the remaining-length width boundaries 127/128, 16383/16384, 2097151/2097152; 1-4 filters; each level limit), decoding every packet on the wire with the independent strict codec and comparing all fields; 35 % of the requests carry an invalid argument (empty, ten kinds of ill-formed UTF-8, U+0000, 65536 bytes, no filters) and must be denied with IsDeny without a byte written or a storage operation; illegal Config strings must be refused by the constructor; denials do not consume capacity (maximum 1; 40 denied subscribes)." + distinctRule + " non-trivial = every run (each draws a distinct configuration and argument set)",
-		Assumptions: []string{"the 268,435,455-byte packet boundary is not exercised (the wire log would have to hold it); the three smaller remaining-length boundaries are", "the reference codec is correct with respect to MQTT 3.1.1"},
-		Probes:      []string{"connect_decoded", "decoded_PUBLISH", "decoded_SUBSCRIBE", "decoded_UNSUBSCRIBE", "remaining_length_multi_byte", "invalid_ill-formed-utf8", "invalid_nul", "invalid_over-65535", "invalid_empty", "invalid_no-filters", "illegal_config", "short_write_timeout"},
+		Assumptions: []string{"the 268,435,455-byte packet boundary is exercised on persisted publishes of an offline client only (family size-limit: remaining length at the limit -1, +0, +1, +2; the packet goes to the Persistence, a wire log would have to hold 256 MiB); the three smaller remaining-length boundaries are exercised on the wire", "the reference codec is correct with respect to MQTT 3.1.1"},
+		Probes:      []string{"connect_decoded", "decoded_PUBLISH", "decoded_SUBSCRIBE", "decoded_UNSUBSCRIBE", "remaining_length_multi_byte", "invalid_ill-formed-utf8", "invalid_nul", "invalid_over-65535", "invalid_empty", "invalid_no-filters", "illegal_config", "short_write_timeout", "valid_at-268435455", "invalid_over-268435455"},
 		QuickS:      15, ThoroughS: 200,
 	},
 	"C10": {
 		Level: "exploration",
-		Rule: "seeded runs with inbound QoS 1/2 traffic (the reader owes PUBACK, PUBREC, PUBCOMP, PUBREL) plus writer tasks of every request type; write failures of other goroutines at drawn points, read errors, EOF, expiries, failed dials and handshakes; family partition: the connection goes silent without reset, preferably inside a large inbound packet (only PauseTimeout lets the client notice; the reset that ends the partition is withheld from a client that has those means once faults have stopped); oracle: bounded liveness (the client serves again within L simulated time and S steps once faults stop) and the documented ReadBackoff rules." + distinctRule + " non-trivial = a write failed or timed out",
+		Rule: "seeded runs with inbound QoS 1/2 traffic (the reader owes PUBACK, PUBREC, PUBCOMP, PUBREL) plus writer tasks of every request type; write failures of other goroutines at drawn points, read errors, EOF, expiries, failed dials and handshakes; breaks include the half-close (end of stream for the reader while the peer takes nothing more: writes block until their deadline, a local Close or a reset, which comes from the fault budget and is withheld once the reader was handed the end of the stream); family partition: the connection goes silent without reset (in 40 % also with a full send buffer), preferably inside a large inbound packet (only PauseTimeout lets the client notice; the reset that ends the partition is withheld from a client that has those means once faults have stopped); oracle: bounded liveness (the client serves again within L simulated time and S steps once faults stop) and the documented ReadBackoff rules." + distinctRule + " non-trivial = a write failed or timed out",
 		Assumptions: flowAssumptions,
-		Probes:      []string{"write_break", "short_write_timeout", "backoff_checked", "read_expiry", "dial_fail", "partition", "partition_inside_packet"},
+		Probes:      []string{"write_break", "short_write_timeout", "backoff_checked", "read_expiry", "dial_fail", "partition", "partition_inside_packet", "break_kind3", "blocked_write_timed_out"},
 		QuickS:      20, ThoroughS: 300,
 	},
 	"C08": {
@@ -103,16 +103,16 @@ var props = map[string]propMeta{
 	},
 	"C11": {
 		Level: "exploration",
-		Rule: "seeded runs with 2-7 requester tasks issuing Subscribe/Unsubscribe/Ping (quit nil, open, closed before, closed during), broker failing a subset of filters, connection loss at any point; family ping-slot: 3-5 tasks issuing Ping with every kind of quit behind a busy write lock; family id-window: the answer to the first SUBSCRIBE is held while 8,191 UNSUBSCRIBE round trips take the identifier counter once around, then a second SUBSCRIBE with a failing filter; a run that comes to rest with a call outstanding while the environment withholds nothing is judged as the end of a quiescence phase (hung callers); oracles: a result needs that request's own response handed to the client before the return, SubscribeError lists exactly the failed filters in order, every call has returned when the quiescence phase ends." + distinctRule + " non-trivial = a fault fired and a request was answered or a quit was closed during a request",
+		Rule: "seeded runs with 2-7 requester tasks issuing Subscribe/Unsubscribe/Ping (quit nil, open, closed before, closed during), broker failing a subset of filters, connection loss at any point; family ping-slot: 3-5 tasks issuing Ping with every kind of quit behind a busy write lock; family teardown: storage errors in the acknowledgement handlers (record removal only) take a healthy, writable connection down while 3-5 tasks issue requests, Close is a scheduling point of its own, the fault budget is 1-3 so that the last teardown is the one that shows; family id-window: the answer to the first SUBSCRIBE is held while 8,191 UNSUBSCRIBE round trips take the identifier counter once around, then a second SUBSCRIBE with a failing filter; a run that comes to rest with a call outstanding while the environment withholds nothing is judged as the end of a quiescence phase (hung callers); oracles: a result needs that request's own response handed to the client before the return, SubscribeError lists exactly the failed filters in order, every call has returned when the quiescence phase ends." + distinctRule + " non-trivial = a fault fired and a request was answered or a quit was closed during a request",
 		Assumptions: flowAssumptions,
-		Probes:      []string{"answered_request", "answered_ping", "subscribe_error_mapped", "quit_closed_during_request", "identifier_window_wrapped", "pong_meets_unsubmitted_ping", "goroutine_held_back"},
+		Probes:      []string{"answered_request", "answered_ping", "subscribe_error_mapped", "quit_closed_during_request", "identifier_window_wrapped", "pong_meets_unsubmitted_ping", "goroutine_held_back", "healthy_connection_closed_by_client"},
 		QuickS:      20, ThoroughS: 300,
 	},
 	"C12": {
 		Level: "fault_enumeration",
-		Rule: "family closers: seeded runs of the general flow (publishers, requesters, inbound traffic, fault mix) with 1-3 Close/Disconnect invocations (nil, open and closed quit) started at drawn steps, the later ones right after the first (concurrent); family close-sweep: for a sampled base run of N steps the same seed is re-run with the first closer started at every step 1..min(N,400). Oracles: each call returns (bounded in simulated time and steps) without panic; afterwards every method returns ErrClosed twice, ReadSlices reports ErrClosed, Offline released and Online blocked at every later step and never both released, pending exchanges received ErrClosed and stay open, every connection closed, a successful Disconnect left DISCONNECT as the last packet, no goroutine of the library left (stack census of the bubble)." + distinctRule + " non-trivial = a closer landed while dialing, awaiting CONNACK, resending, with a writer in flight or offline",
+		Rule: "family closers: seeded runs of the general flow (publishers, requesters, inbound traffic, fault mix) with 1-3 Close/Disconnect invocations (nil, open and closed quit) started at drawn steps, the later ones right after the first (concurrent); family close-sweep: for a sampled base run of N steps the same seed is re-run with the first closer started at every step 1..min(N,400). Oracles: each call returns (bounded in simulated time and steps) without panic; afterwards every method returns ErrClosed twice, ReadSlices reports ErrClosed, Offline released and Online blocked at every later step and never both released, pending exchanges received ErrClosed and stay open, every connection closed, a successful Disconnect left DISCONNECT as the last packet, no goroutine of the library left (stack census of the bubble). A dial whose context ended meanwhile fails or, in 30 % of the cases, still returns its connection (the cancellation came too late for the dialer)." + distinctRule + " non-trivial = a closer landed while dialing, awaiting CONNACK, resending, with a writer in flight or offline",
 		Assumptions: append([]string{"the close-point sweep is complete over the steps of each sampled base run (up to 400), not over all base runs"}, flowAssumptions...),
-		Probes:      []string{"closer_never-connected", "closer_dialing", "closer_awaiting-connack", "closer_resending", "closer_online", "closer_online-writer-in-flight", "closer_offline", "closer_already-closed", "post_close_probe", "exchange_got_errclosed", "disconnect_succeeded"},
+		Probes:      []string{"closer_never-connected", "closer_dialing", "closer_awaiting-connack", "closer_resending", "closer_online", "closer_online-writer-in-flight", "closer_offline", "closer_already-closed", "post_close_probe", "exchange_got_errclosed", "disconnect_succeeded", "dial_completed_after_cancel"},
 		QuickS:      25, ThoroughS: 400,
 	},
 	"C13": {
@@ -124,7 +124,7 @@ var props = map[string]propMeta{
 	},
 	"C14": {
 		Level: "exploration",
-		Rule: "seeded runs of every request method against every client state reached by the fault mix, with quit timing drawn; oracle over every API return: documented class per method, not-submitted classes leave no byte of the request's unique marker on any connection, quit classes only after quit, rejected persisted publishes never transmitted." + distinctRule + " non-trivial = a fault fired and a limbo or not-submitted class was returned",
+		Rule: "seeded runs of every request method against every client state reached by the fault mix, with quit timing drawn; oracle over every API return: documented class per method, not-submitted classes leave no byte of the request's unique marker on any connection, quit classes only after quit, rejected persisted publishes never transmitted, never holding a slot and never stored." + distinctRule + " non-trivial = a fault fired and a limbo or not-submitted class was returned",
 		Assumptions: flowAssumptions,
 		Probes:      []string{"class_ErrSubmit", "class_ErrBreak", "class_ErrDown", "class_ErrCanceled", "class_ErrAbandoned", "class_ErrMax"},
 		QuickS:      20, ThoroughS: 300,
@@ -138,7 +138,7 @@ var props = map[string]propMeta{
 	},
 	"C16": {
 		Level: "exploration",
-		Rule: "seeded: a flow run (publishers of both levels, inbound exactly-once traffic) is stopped at a drawn step; 1-3 records of the image (outbound PUBLISH, PUBREL, inbound marker, client identifier) are altered in one byte, truncated or removed and 0-2 stray entries added (foreign key ranges, garbage, valid-looking records); AdoptSession, then a fault-free incarnation with new publishes against the same broker model. Oracles: no fatal, no panic, at least one warning per unusable record, the client comes online and completes what it resumed and what is new within the liveness bounds, resent packets equal genuinely saved records in their original order, no identifier collision." + distinctRule + " non-trivial = damage was applied and the session recovered",
+		Rule: "seeded: a flow run (publishers of both levels, inbound exactly-once traffic) is stopped at a drawn step; 1-3 records of the image (outbound PUBLISH, PUBREL, inbound marker, client identifier) are altered in one byte, truncated or removed and 0-2 stray entries added (foreign key ranges, garbage, valid-looking records); AdoptSession, then a fault-free incarnation with new publishes against the same broker model. family damage-then-restart: damage of outbound records, adoption, more publishes up to small maxima with the final acknowledgements withheld, another stop and a second adoption on the image that still holds what the first one abandoned. Oracles: no fatal (of any adoption), no panic, at least one warning per unusable record, the client comes online and completes what it resumed and what is new within the liveness bounds, resent packets equal genuinely saved records in their original order, no identifier collision." + distinctRule + " non-trivial = damage was applied and the session recovered",
 		Assumptions: flowAssumptions,
 		Probes:      []string{"damaged_session_recovered", "damage_alter_publish", "damage_remove_publish", "damage_alter_pubrel", "damage_alter_marker", "damage_remove_marker", "damage_alter_clientid", "damage_stray_stray"},
 		QuickS:      25, ThoroughS: 400,
@@ -152,21 +152,21 @@ var props = map[string]propMeta{
 	},
 	"C20": {
 		Level: "exploration",
-		Rule: "seeded generation of expectation lists and invocation sequences over a small alphabet (messages, topics and filter sets each equal or different independently, too few and too many calls, quit nil/open/closed), invoked from 1-3 tasks that interleave at the yields inserted into mqtttest, against a recording testing.TB and a reference model (each expectation returns a unique error value, which tells the model which expectation a call consumed); exchange scripts of NewPublishExchangeStub (errors, timed blocks, ErrClosed, indefinite block) run under the fake clock: order, not-before-its-delay, closed exactly when the script says so; ReadSlices stub copies; closed quit yields ErrCanceled. The comparison clause is input sampling: no fault or schedule decides it." + distinctRule + " non-trivial = a deviation was generated or a script was run",
+		Rule: "seeded generation of expectation lists and invocation sequences over a small alphabet (messages, topics and filter sets each equal or different independently, too few and too many calls, quit nil/open/closed), invoked from 1-3 tasks that interleave at the yields inserted into mqtttest (before channel operations, mutex locks and sync/atomic calls), against a recording testing.TB and a reference model (each expectation returns a unique error value, which tells the model which expectation a call consumed); exchange scripts of NewPublishExchangeStub (errors, timed blocks, ErrClosed, indefinite block) run under the fake clock: order, not-before-its-delay, closed exactly when the script says so; ReadSlices stub copies; closed quit yields ErrCanceled. The comparison clause is input sampling: no fault or schedule decides it." + distinctRule + " non-trivial = a deviation was generated or a script was run",
 		Assumptions: []string{"a failure is 'recorded' when Errorf/Error/Fatalf was called at least once; the number of lines per deviation is not part of the contract", "goroutines interleave at the yields inserted into mqtttest only"},
 		Probes:      []string{"deviation_generated", "exchange_delay_scripted"},
 		QuickS:      15, ThoroughS: 200,
 	},
 	"C17": {
 		Level: "exploration",
-		Rule: "family windows: seeded runs with AtLeastOnceMax/ExactlyOnceMax in {0,1,2,3,-1,20000} and 1-4 concurrent publishers; family wrap: a disk image constructed in the documented record layout with the pending ranges of both levels ending at, straddling or just past identifier 0x3fff (a state a previous process could have left), adopted with maxima in {64,8,-1,20000}, 2-3 incarnations with stops at drawn steps and new publishes across the wrap; oracles: identifiers of unfinished transactions pairwise distinct and non-zero across the four kinds, in-flight count never above the maximum, ErrMax only with excess and without waiting on the network." + distinctRule + " non-trivial = ErrMax was returned",
+		Rule: "family windows: seeded runs with AtLeastOnceMax/ExactlyOnceMax in {0,1,2,3,-1,20000} and 1-4 concurrent publishers; family wrap: a disk image constructed in the documented record layout with the pending ranges of both levels ending at, straddling or just past identifier 0x3fff (a state a previous process could have left), adopted with maxima in {64,8,-1,20000}, 2-3 incarnations with stops at drawn steps and new publishes across the wrap; oracles: identifiers of unfinished transactions pairwise distinct and non-zero across the four kinds, in-flight count never above the maximum (also counted as records of the level in the Persistence at every Save), ErrMax only with excess and without waiting on the network." + distinctRule + " non-trivial = ErrMax was returned",
 		Assumptions: flowAssumptions,
 		Probes:      []string{"errmax_returned", "pending_range_straddles_wrap"},
 		QuickS:      20, ThoroughS: 300,
 	},
 	"C18": {
 		Level: "exploration",
-		Rule: "seeded connect histories: dial failures and hangs, breaks at any point of CONNECT/CONNACK/resend, refused CONNACK with any return code, clean session on or off, requests of every type issued in each phase; oracles: CONNECT first and reflecting the Config, nothing before an accepting CONNACK, clean session only until the first established connection, refused connections closed and reported, new requests only after the resend, ErrDown only after trouble." + distinctRule + " non-trivial = a connect failed, was refused, or a reconnect happened",
+		Rule: "seeded connect histories: dial failures and hangs, breaks at any point of CONNECT/CONNACK/resend, refused CONNACK with any return code, clean session on or off, requests of every type issued in each phase; oracles: CONNECT first and reflecting the Config, nothing before an accepting CONNACK, clean session only until the first established connection, refused connections closed and reported, new requests only after the resend, ErrDown only after trouble, no ReadSlices error that blames a CONNACK of the reference broker (its sessions follow the clean-session lifetime rule: a session created with clean session ends with its connection, so session-present is 0 on the first reconnect and 1 from the second on)." + distinctRule + " non-trivial = a connect failed, was refused, or a reconnect happened",
 		Assumptions: flowAssumptions,
 		Probes:      []string{"refused_connack_closed", "reconnect_without_clean", "dial_fail", "dial_hang"},
 		QuickS:      20, ThoroughS: 300,
